@@ -1,10 +1,14 @@
 package props
 
 import (
+	"errors"
+	"sort"
 	"sync/atomic"
 	"time"
 
 	"github.com/trustbloc/sidetree-core-go/pkg/api/operation"
+	"github.com/trustbloc/sidetree-core-go/pkg/document"
+	"github.com/trustbloc/sidetree-core-go/pkg/processor"
 
 	"sidever/internal/concr"
 	"sidever/internal/ev"
@@ -80,6 +84,40 @@ func C02(c *ev.Ctx) {
 				}
 			}
 		}
+		// a store that hands out its INTERNAL slice (as the library's own mock store does): a resolution - in particular
+		// one with additional operations - must not change what the next resolution sees
+		if !bad && i%5 == 0 {
+			var pubs []AnchOp
+			for _, a := range cs.Ops {
+				if a.Pub {
+					pubs = append(pubs, a)
+				}
+			}
+			if len(pubs) >= 2 && len(pubs) == len(cs.Ops) {
+				// the operation handed over as additional one is anchored BEFORE some operation of the store
+				sort.Slice(pubs, func(a, b int) bool { return pubs[a].T < pubs[b].T || (pubs[a].T == pubs[b].T && pubs[a].N < pubs[b].N) })
+				pick := (len(pubs) - 1) / 2
+				last := pubs[pick]
+				rest := append(append([]AnchOp{}, pubs[:pick]...), pubs[pick+1:]...)
+				want1, _, _ := e.Resolve(rest)
+				shared := &sharedStore{ops: make([]*operation.AnchoredOperation, 0, len(pubs)+2)}
+				for _, a := range rest {
+					shared.ops = append(shared.ops, e.Anchored(a))
+				}
+				proc := processor.New("verif", shared, e.PC)
+				r1 := e.Alpha_(proc.Resolve(e.Suffix))
+				r2 := e.Alpha_(proc.Resolve(e.Suffix, document.WithAdditionalOperations([]*operation.AnchoredOperation{e.Anchored(last)})))
+				r3 := e.Alpha_(proc.Resolve(e.Suffix))
+				atomic.AddInt64(&orders, 3)
+				switch {
+				case !r1.Equal(want1) || !r2.Equal(cs.Res):
+					c.Violation("shared-store-resolution-differs", map[string]interface{}{"store": e.Describe(rest), "additional": e.Describe([]AnchOp{last}), "first": r1, "with_additional": r2, "expected_first": want1, "expected_with_additional": cs.Res})
+				case !r3.Equal(want1):
+					c.Violation("resolution-changes-the-operation-store", map[string]interface{}{"store": e.Describe(rest), "additional_operation_of_the_second_call": e.Describe([]AnchOp{last}),
+						"first_call": r1, "third_call_same_store_no_options": r3, "note": "the store returns its internal slice; the second call appended to it and sorted it in place"})
+				}
+			}
+		}
 		if i%5000 == 3 {
 			c.AddSample(map[string]interface{}{"ops": cs.Ops, "orders_tried": k, "real": first, "spec": cs.Res})
 		}
@@ -89,9 +127,21 @@ func C02(c *ev.Ctx) {
 	c.Cov.DistinctNontrivial = nt
 	c.Cov.Exhaustive = true
 	c.Cov.Extra["stores"] = replayed
-	c.Cov.Rule = "every store of <= MaxOps operations (published or unpublished) over competing valid updates/recovers per commitment, duplicate creates and a deactivate, at coordinates with non-monotone transaction numbers; for each store every permutation of the store's return order is replayed through the real processor; verdict: all orders give the same view and operation lists, equal to the specification's earliest-wins result; in addition every split of the set into operations served by the stores and operations supplied through the AdditionalOperations resolution option (published ones optionally left in the store as well) must give the same result. Non-trivial: >= 2 candidates for one commitment, >= 2 creates, or published+unpublished mixed."
+	c.Cov.Rule = "every store of <= MaxOps operations (published or unpublished) over competing valid updates/recovers per commitment, duplicate creates and a deactivate, at coordinates with non-monotone transaction numbers; for each store every permutation of the store's return order is replayed through the real processor; verdict: all orders give the same view and operation lists, equal to the specification's earliest-wins result; in addition every split of the set into operations served by the stores and operations supplied through the AdditionalOperations resolution option (published ones optionally left in the store as well) must give the same result; and three consecutive resolutions over a store that hands out its internal slice (the second one with an additional operation) must leave the store as it was. Non-trivial: >= 2 candidates for one commitment, >= 2 creates, or published+unpublished mixed."
 	c.Assume = append(c.Assume, "the store order is modelled by the order of the slices handed to the processor by the published and unpublished stores")
 	c.Finish("model_checking")
+}
+
+// sharedStore hands out its internal slice (spare capacity included), like the library's mock operation store.
+type sharedStore struct {
+	ops []*operation.AnchoredOperation
+}
+
+func (s *sharedStore) Get(string) ([]*operation.AnchoredOperation, error) {
+	if len(s.ops) == 0 {
+		return nil, errors.New("not found")
+	}
+	return s.ops, nil
 }
 
 func refList(ops []*operation.AnchoredOperation) string {
